@@ -119,13 +119,14 @@ func run(s *core.Shard) {
 			out := roundTrip(s.Scratch(), &cc, formats...)
 			k.account(id, &cc, out, "corpus")
 			for _, f := range out.failures {
-				k.report(f, &cc, out, "corpus:"+filepath.Base(c.ComposeFiles[0]), nil)
+				f.Detail += " (" + c.ComposeFiles[0] + " of the loader's own files)"
+				k.report(f, &cc, out, "corpus", nil)
 			}
 		}
 	}
 
 	// (c) random models
-	nRnd := s.Pick(1500, 30000) / scale
+	nRnd := s.Pick(1200, 20000) / scale
 	for j := 0; j < nRnd; j++ {
 		_, mine := next()
 		if !mine {
@@ -277,17 +278,33 @@ func (k *checker) attribute(m *gen.Model, opts ld.Opts, f failure) ([]string, *g
 	// culprits named by the failure text first, then most recently confirmed first
 	norm := func(x string) string { return strings.ToLower(strings.NewReplacer("_", "", ".", "", "-", "").Replace(x)) }
 	text := norm(f.Class + " " + f.Detail)
-	sort.SliceStable(k.cache, func(a, b int) bool {
-		named := func(c []string) bool {
-			for _, p := range c {
-				if strings.Contains(text, norm(p[strings.LastIndex(p, ".")+1:])) {
-					return true
-				}
+	names := func(c []string, txt string) bool {
+		for _, p := range c {
+			if seg := norm(p[strings.LastIndex(p, ".")+1:]); len(seg) >= 3 && strings.Contains(txt, seg) {
+				return true
 			}
+		}
+		return false
+	}
+	sort.SliceStable(k.cache, func(a, b int) bool { return names(k.cache[a], text) && !names(k.cache[b], text) })
+	// cured: the model without the culprit still loads and the failure is gone. When the failure
+	// text names the culprit, a remaining failure of the same step that no longer names it is
+	// another defect of the same model (the loader reports one error at a time, the comparer
+	// one difference): it is attributed in the next round.
+	cured := func(out outcome, culprit []string) bool {
+		if !out.loaded || out.skipped != "" {
 			return false
 		}
-		return named(k.cache[a]) && !named(k.cache[b])
-	})
+		for _, x := range out.failures {
+			if x.sig() != f.sig() {
+				continue
+			}
+			if !names(culprit, text) || names(culprit, norm(x.Class+" "+x.Detail)) {
+				return false
+			}
+		}
+		return true
+	}
 	for i, known := range k.cache {
 		c := m.Clone()
 		n := 0
@@ -297,7 +314,7 @@ func (k *checker) attribute(m *gen.Model, opts ld.Opts, f failure) ([]string, *g
 		if n == 0 {
 			continue
 		}
-		if out := try(c); out.loaded && out.skipped == "" && !hasFailure(out, f.sig()) {
+		if cured(try(c), known) {
 			// move to front: the most frequent culprits are tried first
 			copy(k.cache[1:i+1], k.cache[:i])
 			k.cache[0] = known
@@ -321,7 +338,7 @@ func (k *checker) attribute(m *gen.Model, opts ld.Opts, f failure) ([]string, *g
 		if gen.RemoveAttr(c.Doc, p) == 0 {
 			continue
 		}
-		if out := try(c); out.loaded && out.skipped == "" && !hasFailure(out, f.sig()) {
+		if cured(try(c), []string{p}) {
 			// removing p cures it: prune from the sub-document that carries only p
 			k := m.Clone()
 			k.Layout = nil
@@ -362,7 +379,7 @@ func (k *checker) report(f failure, c *ld.Case, out outcome, culprit string, min
 	if culprit != "" {
 		attrs["culprit"] = culprit
 	}
-	if (culprit == "" || culprit == "unresolved" || strings.HasPrefix(culprit, "corpus:")) && attrs["field"] == "" {
+	if (culprit == "" || culprit == "unresolved" || culprit == "corpus") && attrs["field"] == "" {
 		attrs["class"] = f.Class
 	}
 	files := map[string]any{}
